@@ -31,3 +31,14 @@ pub mod solidadapter;
 #[cfg(feature = "sqlitedbadapter")]
 pub mod sqliteadapter;
 mod utils;
+
+/// Verification hooks (compiled only with `--cfg melda_verif`): read-only access to
+/// crate-private types for the external verification harness
+#[cfg(melda_verif)]
+pub mod verif {
+    pub use crate::constants::*;
+    pub use crate::datastorage::DataStorage;
+    pub use crate::revision::Revision;
+    pub use crate::revisiontree::RevisionTree;
+    pub use crate::utils::*;
+}
